@@ -356,12 +356,15 @@ class SimLock:
         self.sched = sched
         self.owner = None
         self.contended = 0
+        self.on_acquire = None  # optional fault hook: called with the acquiring thread id before anything else; may raise
 
     def acquire(self, blocking=True, timeout=-1):
         tid = getattr(_tls, "tid", None)
         if tid is None:
             self.owner = "outside"
             return True
+        if self.on_acquire is not None:
+            self.on_acquire(tid)
         while self.owner is not None:
             self.contended += 1
             self.sched.block(tid, self)
